@@ -14,6 +14,9 @@ type Opts struct {
 	Services    bool
 	Topics      bool
 	Entities    bool
+	// OddMethodNames: method names with acronym runs, a lower-case initial, digits
+	// or underscores (C02)
+	OddMethodNames bool
 	// KeyEntity: entity-key annotations (foreign / primary / tenant) on key fields
 	// and key items outside entity blocks
 	KeyEntity  bool
@@ -148,10 +151,18 @@ func Draw(t *rapid.T, o Opts) (*Bundle, map[string]bool) {
 	if np > 1 {
 		g.cls("multi-package")
 	}
+	serviceOnly := map[int]bool{}
 	// phase 1: plan referencable type headers so fields can point anywhere
 	for pi, p := range g.b.Packages {
 		for fi := range p.Files {
 			n := rapid.IntRange(1, 4).Draw(t, "ntypes")
+			if pi > 0 && len(p.Files) == 1 && (o.Services || o.Topics) && !o.EntityOnly && rapid.IntRange(0, 4).Draw(t, "svconly") == 0 {
+				// a package that declares nothing but a service or a topic: all its
+				// messages live in the .service / .topic sub-package
+				n = 0
+				serviceOnly[pi] = true
+				g.cls("package-without-own-schemas")
+			}
 			for k := 0; k < n; k++ {
 				kind := rapid.SampledFrom([]string{"object", "object", "object", "enum", "oneof"}).Draw(t, "declkind")
 				if pi == 0 && fi == 0 && k == 0 {
@@ -216,11 +227,18 @@ func Draw(t *rapid.T, o Opts) (*Bundle, map[string]bool) {
 					f.Decls = append(f.Decls, &Decl{Enum: ti.enum})
 				}
 			}
-			if o.Services && rapid.IntRange(0, 2).Draw(t, "hassvc") == 0 {
+			forced := ""
+			if serviceOnly[pi] {
+				forced = "service"
+				if !o.Services || (o.Topics && rapid.Bool().Draw(t, "svconlytopic")) {
+					forced = "topic"
+				}
+			}
+			if o.Services && (forced == "service" || rapid.IntRange(0, 2).Draw(t, "hassvc") == 0) {
 				f.Decls = append(f.Decls, &Decl{Service: g.service()})
 				g.cls("service")
 			}
-			if o.Topics && rapid.IntRange(0, 2).Draw(t, "hastopic") == 0 {
+			if o.Topics && (forced == "topic" || rapid.IntRange(0, 2).Draw(t, "hastopic") == 0) {
 				f.Decls = append(f.Decls, &Decl{Topic: g.topic()})
 				g.cls("topic")
 			}
@@ -265,6 +283,14 @@ func (g *gen) enumBody(name, hint string) *Enum {
 			if rapid.Bool().Draw(t, "info2") {
 				o.Info["size"] = "big"
 				o.Info["alpha"] = "first"
+			}
+			if rapid.IntRange(0, 2).Draw(t, "infocase") == 0 {
+				// keys that differ only in case, or in a character that sorts between
+				// the cases
+				o.Info["Color"] = "upper"
+				o.Info["colour"] = "uk"
+				o.Info["Size"] = "upper"
+				g.cls("enum-option-info:keys-differing-in-case")
 			}
 			g.cls("enum-option-info")
 		}
@@ -894,6 +920,11 @@ func (g *gen) method(names map[string]bool) *Method {
 		name = rapid.SampledFrom(methodVerbs).Draw(t, "mverb") + rapid.SampledFrom(typeWords).Draw(t, "mnoun")
 		if stem := g.derivedStem("Request", "Response"); stem != "" {
 			name = stem
+		} else if g.o.OddMethodNames && rapid.IntRange(0, 4).Draw(t, "oddmethod") == 0 {
+			// names a case converter would change: the rpc and its <Method>Request /
+			// <Method>Response keep the declared spelling
+			name = rapid.SampledFrom([]string{"GetAPIKey", "RotateKeyID", "getThing", "Get2fa", "Do_It", "X", "HTTPGet"}).Draw(t, "oddmethodname")
+			g.cls("method-name:odd")
 		}
 		if !names[name] && !g.used[g.curPkg.Name+".service."+name] {
 			names[name] = true
@@ -1041,6 +1072,9 @@ func (g *gen) entity() *Entity {
 			k.Primary = true
 		case rapid.IntRange(0, 2).Draw(t, "foreign") == 0:
 			k.Foreign = g.curPkg.Name + "." + rapid.SampledFrom(typeWords).Draw(t, "fkent")
+		case rapid.IntRange(0, 2).Draw(t, "primaryfalse") == 0:
+			k.PrimaryFalse = true
+			g.cls("key:primary-false")
 		}
 		if rapid.IntRange(0, 3).Draw(t, "tenant") == 0 {
 			k.Tenant = rapid.SampledFrom([]string{"account", "org"}).Draw(t, "tenantv")
